@@ -88,4 +88,115 @@ def check_C01(tier):
     return rc
 
 
+QUERY = {
+    "C09": ("ExhaustiveSound", "patterns reporting is_exhaustive() == Always",
+            "every canonical path beneath a matched canonical path is matched (obligation monitor)"),
+    "C10": ("DepthSound", "all built patterns whose finite depth bounds are below 8",
+            "every matched canonical path (rooted iff the pattern is) has a component count inside the reported bounds"),
+    "C11": ("TextSound", "patterns reporting invariant text",
+            "the matched language is exactly {text} (a subset when a class lists the separator)"),
+    "C12": ("RootSound", "patterns reporting has_root() == Always",
+            "every matched path begins with a separator"),
+}
+
+
+def query_check(prop, tier):
+    t0 = time.time()
+    inv, relevant, meaning = QUERY[prop]
+    cases = L.all_cases(tier)
+    obs_path = L.observe(cases, "dfa", "all-" + tier)
+    obs = L.read_ndjson(obs_path)
+    by_id = {o["id"]: o for o in obs}
+    out, stats = C.tlc("QueryCheck.tla", "QueryCheck_%s.cfg" % prop, env={"OBS": obs_path, "PROP": prop}, timeout=3000,
+                       java_opts=["-Xmx12g"])
+    if not stats["ok"]:
+        C.log(stats.get("tail", ""))
+        raise C.ToolError("TLC did not complete on QueryCheck_%s" % prop)
+    recs = C.tlc_records(out)
+    v = C.Verdict(prop)
+    entered = [r["id"] for r in recs if r["t"] == "IN"]
+    witness = {}
+    for r in recs:
+        if r["t"] != "DISAGREE":
+            continue
+        o = by_id[r["id"]]
+        v.disagree(r, "%r reports %s but path %r: %s" % (L.expr_of(o), reported(prop, o), C.text(r["path"]), r["what"]))
+        witness.setdefault(r["id"], r)
+    # observation-level clauses that need no product
+    if prop == "C12":
+        for o in obs:
+            if o["outcome"] == "ok" and o.get("kind") == "glob" and not o["qpanic"] and o["q"]["root"] == "sometimes":
+                v.disagree({"t": "OBS", "what": "glob_sometimes_rooted", "id": o["id"]},
+                           "glob %r reports has_root() == Sometimes" % L.expr_of(o))
+    # B3: replay one disagreement witness per case, and a sample of accepted/rejected paths, in the real engine
+    n_replayed = 0
+    if witness:
+        ws = [{"id": i, "path": r["path"], "mu": False, "ma": True, "im": None} for i, r in witness.items()]
+        n_replayed += replay_paths(by_id, ws)
+    n_replayed += replay_table_sample(by_id, entered, prop)
+    if not entered:
+        raise C.ToolError("vacuous run: no case entered the product for %s" % prop)
+    samples = [{"pattern": L.expr_of(by_id[i]), "reported": reported(prop, by_id[i])} for i in random.Random(C.SEED).sample(entered, min(5, len(entered)))]
+    rc = v.finish()
+    C.write_evidence(prop, tier, "model_checking", {
+        "states": stats["distinct"], "transitions": stats["generated"],
+        "traces_validated_against_impl": n_replayed,
+        "samples": samples,
+        "evaluations": len(cases), "distinct_nontrivial": len(set(entered)),
+        "rule": "cases = lexeme families %s plus `any` combinations of a pool of %d patterns (text, compiled and nested); non-trivial = %s (these enter the product)" % (L.TIERS[tier], len(L.ANY_POOL), relevant),
+        "contract": meaning,
+        "disagreeing_records": sum(1 for r in recs if r["t"] == "DISAGREE"),
+        "known_findings_hit": sorted(v.findings),
+        "exhaustive": True,
+    }, time.time() - t0, len(v.violations), TRUSTED_LANG)
+    return rc
+
+
+def reported(prop, o):
+    q = o["q"]
+    if prop == "C09":
+        return "is_exhaustive=%s" % q["exh"]
+    if prop == "C10":
+        return "depth=%s..%s" % (q["dlo"], "inf" if q["dhi"] == -1 else q["dhi"])
+    if prop == "C11":
+        return "text=%r" % C.text(q["text"])
+    return "has_root=%s" % q["root"]
+
+
+def table_accepts(o, path):
+    q = 0
+    for c in path:
+        q = o["dfa"]["delta"][q][o["sigma"].index(c)] - 1
+    return o["dfa"]["acc"][q]
+
+
+def replay_paths(by_id, ws):
+    """replays paths in the real engine and requires the exported table to agree with it"""
+    for w in ws:
+        w["im"] = table_accepts(by_id[w["id"]], w["path"])
+        w["mu"], w["ma"] = False, True
+    n, problems = L.replay_witnesses(by_id, ws)
+    bad = [p for p in problems if p["kind"] == "table_vs_engine"]
+    if bad:
+        p = bad[0]
+        raise C.ToolError("exported automaton and real engine disagree: %r on %r" % (L.expr_of(by_id[p["id"]]), C.text(p["path"])))
+    return n
+
+
+def replay_table_sample(by_id, ids, prop, per_case=3, max_cases=1500):
+    """binds the exported tables to the real engine on seeded random paths"""
+    rnd = random.Random(C.SEED + 17)
+    ids = sorted(set(ids))
+    rnd.shuffle(ids)
+    ws = []
+    for i in ids[:max_cases]:
+        o = by_id[i]
+        for _ in range(per_case):
+            path = [rnd.choice(o["sigma"]) for _ in range(rnd.randint(0, 6))]
+            ws.append({"id": i, "path": path})
+    return replay_paths(by_id, ws)
+
+
 CHECKS = {"C01": check_C01}
+for _p in QUERY:
+    CHECKS[_p] = (lambda p: (lambda tier: query_check(p, tier)))(_p)
